@@ -227,10 +227,8 @@ def explicit_python(c, X, Y, names=None, parents_override=None):
 
 
 
-K20, K21, K22, K23 = "K20", "K21", "K22", "K23"
+K20, K21, K22 = "K20", "K21", "K22"
 CUT_EDGE_FINDINGS = {
-    K23: "a readout that is an exit of the model and is trained in a stage which is not the last one gets no data "
-         "(_get_required_nodes links a stage only to the nodes of the NEXT stage): Model.fit raises AttributeError",
     K21: "a fan-in node receives a predecessor that was run two or more training stages earlier: its states are not "
          "forwarded (relations only link consecutive stages) and Model.fit raises / fits on the remaining inputs",
     K22: "a fan-in node receives two or more predecessors run in an earlier stage: dist_states_to_next_subgraph keeps "
@@ -267,7 +265,7 @@ def cut_edge_signature(ctx, model):
         for f in mo[1]["route_faults"]:
             cn = back[f["node"]]
             cut_edge_signature.delivered[children[cn][0]] = [back[i] for i in got[f["node"]]]
-    for kind, fid in (("no_train_data", K23), ("missing", K21), ("overwrite", K22), ("order", K20)):
+    for kind, fid in (("missing", K21), ("overwrite", K22), ("order", K20)):
         if kind in kinds:
             return fid
     return None
